@@ -258,6 +258,7 @@ class CaseRunner:
         self.first_failure: dict | None = None
         self.warm = "none"  # first-use order of the universe's classes in this process (part of the history)
         self.history: list = []  # every counted case of the current part, in execution order
+        self.history_all: list = []  # [part name, case] of every counted case of the shard so far (all parts)
 
     def run_case(self, part: Part, data: Any, count: bool = True) -> None:
         """Evaluate; raises Violation on failure (after recording it)."""
@@ -266,6 +267,8 @@ class CaseRunner:
         apply_case_config(data)
         if count:
             self.history.append(data)
+            if self.first_failure is None:
+                self.history_all.append([part.name, data])
         armed = False
         if threading.current_thread() is threading.main_thread():
             signal.signal(signal.SIGALRM, _on_alarm)
@@ -517,7 +520,10 @@ def run_shard(module: Any, ctx: Ctx) -> dict:
     if runner.first_failure is not None:
         # cases executed before (and including) the first failure, for state-dependent failures
         res["history"] = {"part": runner.first_failure["part"], "warm": runner.warm,
-                          "cases": json.loads(canonical(runner.history[-400:]))}
+                          "cases": json.loads(canonical(runner.history[-400:])),
+                          # everything the shard ran before the failure, earlier parts included (for failures
+                          # that depend on what the process did before, e.g. on re-used memory addresses)
+                          "all": json.loads(canonical(runner.history_all[-4000:]))}
     return res
 
 
@@ -537,12 +543,18 @@ def replay_case(module: Any, case: dict) -> tuple[bool, str]:
 
             models_legacy.warm(case["warm"])
     datas = case["sequence"] if "sequence" in case else [case["data"]]
+    parts_of = case.get("sequence_parts")
     for k, data in enumerate(datas):
+        if parts_of:
+            part = next(p for p in module.PARTS if p.name == parts_of[k])
         reset_globals(getattr(module, "CLEAR_MATCH_CACHES", True))
         apply_case_config(data)
         lab = Labels()
         try:
-            part.check(data, lab)
+            try:
+                part.check(data, lab)
+            finally:
+                gc_every(None)
         except Violation as v:
             return False, f"{v.clause}: {v.detail}" + (f" (case {k + 1} of {len(datas)})" if len(datas) > 1 else "")
         except Exception as e:  # noqa: BLE001
